@@ -348,7 +348,7 @@ type c09Mut struct {
 
 func genC09Mut(t *rapid.T) c09Mut {
 	m := c09Mut{Base: genC09Entry(false)(t)}
-	m.Kind = rapid.SampledFrom([]string{"flip", "flip", "lenfield", "lenfield", "random", "splice"}).Draw(t, "kind")
+	m.Kind = rapid.SampledFrom([]string{"flip", "flip", "lenfield", "lenfield", "random", "splice", "fieldspan"}).Draw(t, "kind")
 	m.Pos = rapid.IntRange(0, 1<<20).Draw(t, "pos")
 	m.Val = rapid.SampledFrom([]uint32{0, 1, 2, 3, 0x7fffffff, 0x80000000, 0xffffffff, 0xfffffff0, 1 << 20}).Draw(t, "val")
 	m.Seed = rapid.Uint32().Draw(t, "seed")
@@ -386,6 +386,19 @@ func (m c09Mut) bytes() []byte {
 		if n >= 8 && m.Count > 4 {
 			binary.BigEndian.PutUint32(b, 3)
 			binary.BigEndian.PutUint32(b[4:], m.Val)
+		}
+	case "fieldspan":
+		// make one of the inner length fields (compress name, filter, header) span the rest of the record
+		if m.Base.HasResp && len(b) > 40 {
+			offs := []int{8, 8 + 4 + len(m.Base.CompressSrv) + 4}
+			off := offs[m.Count%len(offs)]
+			if off+4 < len(b) {
+				span := len(b) - off - 4 - m.Pos%17
+				if span < 0 {
+					span = 0
+				}
+				binary.BigEndian.PutUint32(b[off:], uint32(span))
+			}
 		}
 	case "splice":
 		if len(b) > 2 {
